@@ -54,7 +54,7 @@ func init() {
 			return &sim.GenParams{Mix: sim.OpMix{"tx": 4, "mine": 6, "deliver": 8, "walk": 2, "reopen": 1, "truncate": 2, "badblock": 2}, MaxSteps: steps(tier, 26, 44), MaxNodes: 3, Windows: []int{0}, MapOrders: true, SmallCache: true}
 		}, "", func(st *sim.RunStats) bool { return st.Probes["trunk-switch"] > 0 || st.Probes["truncate"] > 0 })
 
-	Engines["C05"] = chainEngine("C05", &sim.ChainCfg{Reopen: true, NoTrace: true, RealMiner: true},
+	Engines["C05"] = chainEngine("C05", &sim.ChainCfg{Reopen: true, NoTrace: true, RealMiner: true, Admit: true},
 		func(tier string) *sim.GenParams {
 			return &sim.GenParams{Mix: sim.OpMix{"tx": 6, "kvtx": 4, "badtx": 4, "respend": 2, "mine": 5, "deliver": 5, "walk": 4, "badblock": 3, "truncate": 1, "clock": 1}, MaxSteps: steps(tier, 20, 36), MaxNodes: 2, Windows: []int{0, 2}, MapOrders: true, SmallCache: true, StorFaults: true}
 		}, "", func(st *sim.RunStats) bool {
